@@ -397,14 +397,22 @@ let run_iter (src : string) : string =
                  (String.concat "" (List.map (fun x -> x ^ ";") rest)))
              [ 0; 1; 2 ])
       in
-      let n1 = M.rename_with M.ident_read (cons_char 'r') n in
-      let n2 = M.rename_with M.ident_write (cons_char 'w') n1 in
-      let n3 = M.rename_with M.ident_fn (cons_char 'f') n2 in
-      let n4 = M.rename_with M.ident_var (cons_char 'v') n3 in
-      let n5 = M.rename_with M.ident_any (cons_char 'i') n4 in
+      (* the mutable iterators run as the explicit-stack loop of Spec/IterMut.v (the model of OperatorIterMut) *)
+      let loop sel g t = match M.iter_mut_idents sel g t with
+        | M.Ok r -> r | M.Err er -> failwith ("iter_mut " ^ error_text er) | M.Panic s -> raise (Model_panic (int_of_n s)) in
+      let seen sel = String.concat "," (List.map hex_of_str (fst (loop sel (fun x -> x) n))) in
+      let opsm = match M.iter_mut_run (fun o -> o) n with
+        | M.Ok (l, _) -> String.concat "," (List.map (fun (_, o) -> op_text o) l)
+        | M.Err er -> "ERR " ^ error_text er | M.Panic s -> raise (Model_panic (int_of_n s)) in
+      let am = seen M.ident_any and bm = seen M.ident_var and cm = seen M.ident_read and dm = seen M.ident_write and em = seen M.ident_fn in
+      let n1 = snd (loop M.ident_read (cons_char 'r') n) in
+      let n2 = snd (loop M.ident_write (cons_char 'w') n1) in
+      let n3 = snd (loop M.ident_fn (cons_char 'f') n2) in
+      let n4 = snd (loop M.ident_var (cons_char 'v') n3) in
+      let n5 = snd (loop M.ident_any (cons_char 'i') n4) in
       Printf.sprintf
         "OK ids[%s] vars[%s] reads[%s] writes[%s] fns[%s] nodes[%s] ops[%s] idsm[%s] varsm[%s] readsm[%s] writesm[%s] fnsm[%s] via<%s> renamed%s"
-        a b c d e nodes nodes a b c d e others (tree_text n5)
+        a b c d e nodes opsm am bm cm dm em others (tree_text n5)
 
 let fmt_oracle : M.fmt_oracle =
   { M.fo_float_display = (fun x -> str_of_hex (oracle_ask ("fts " ^ float_hex x)));
